@@ -379,4 +379,32 @@ def dotEdges (ss : List Stmt) : Except ImpErr (List (String × String)) :=
   | none => throw .noFixpoint
   | some c => pure (reduce c).edges
 
+/-! ### utils.get_dot_dependency_graph: the text (added for the T-gen tie of C20; the hooks and the
+statement stringifier are parameters) -/
+
+/-- `get_node_attrs(stmt)`: `label="…",shape="box",tooltip="…"` with the id as label when
+`use_stmt_ids` is true, as tooltip otherwise -/
+def dotNodeAttrs (useIds : Bool) (str : Stmt → String) (s : Stmt) : String :=
+  if useIds then "label=\"" ++ s.id ++ "\",shape=\"box\",tooltip=\"" ++ str s ++ "\""
+  else "label=\"" ++ str s ++ "\",shape=\"box\",tooltip=\"" ++ s.id ++ "\""
+
+/-- `'"{}" [{}];'.format(stmt.id, get_node_attrs(stmt))` -/
+def dotNodeLine (useIds : Bool) (str : Stmt → String) (s : Stmt) : String :=
+  "\"" ++ s.id ++ "\" [" ++ dotNodeAttrs useIds str s ++ "];"
+
+/-- `f"{stmt_1} -> {stmt_2}"` -/
+def dotEdgeLine (e : String × String) : String := e.1 ++ " -> " ++ e.2
+
+/-- the list `lines` at the end: preamble, `rankdir`, one line per statement in stream order, one
+line per edge of the transitive reduction, the additional lines -/
+def dotLines (pre post : List String) (useIds : Bool) (str : Stmt → String) (ss : List Stmt)
+    (es : List (String × String)) : List String :=
+  pre ++ ["rankdir=BT;"] ++ ss.map (dotNodeLine useIds str) ++ es.map dotEdgeLine ++ post
+
+/-- the returned text -/
+def dotText (pre post : List String) (useIds : Bool) (str : Stmt → String) (ss : List Stmt) :
+    Except ImpErr String := do
+  let es ← dotEdges ss
+  pure ("digraph code {\n" ++ "\n".intercalate (dotLines pre post useIds str ss es) ++ "\n}")
+
 end PV.Imp
